@@ -1,4 +1,5 @@
 import QProofs.C08
+import QGen.C08
 /-!
 # C08 — tomography forward model = circuit Born-rule statistics (property theorems)
 
@@ -218,28 +219,26 @@ theorem qmpt_cols [Field K] (flag : Bool) (m : Nat) (rho : List K) (povm : List 
       else m * (rho.length * rho.length) :=
   qmpt_cols' flag m rho povm rows hm hr hE h
 
-/-- C08.4 `_partial`: `calc_prob_dists` with **equal outcome counts** `c` per schedule: the coded
-`reshape((num_schedules, -1))` recovers the per-schedule distributions, which are then passed through
-`truncate_and_normalize` (the identity on proper distributions, `truncNorm_id`).
-Missing: schedules with different outcome counts — there the statement is false for the code as it is
-(defect D8, `calcProbDists_mixed_counts_fails`, `calcProbDists_mixed_counts_regroups_fails`). -/
-theorem calcProbDists_eq_circuit_partial [Field K] [LinearOrder K] (eps : K) (cs : List (Coeff K))
-    (var : List K) (dists : List (List K)) (c : Nat) (hc : 0 < c) (hk : 0 < dists.length)
-    (hd : ∀ d ∈ dists, d.length = c) (hp : predict cs var = .ok dists.flatten) :
-    calcProbDists eps dists.length cs var = .ok (dists.map (truncNorm eps)) := by
-  have hlen : dists.flatten.length = dists.length * c := by
-    rw [List.length_flatten]
-    have : dists.map List.length = List.replicate dists.length c := by
-      apply List.eq_replicate_iff.2
-      exact ⟨by simp, by intro x hx; obtain ⟨d, hd', rfl⟩ := List.mem_map.1 hx; exact hd d hd'⟩
-    rw [this]; simp
-  unfold calcProbDists
-  rw [hp]
-  simp only [bind, Except.bind, pure, Except.pure]
-  rw [if_neg (by omega), hlen, if_neg (by simp)]
-  rw [Nat.mul_div_cancel_left c hk]
-  congr 2
-  exact chunks_flatten' c dists hd
+/-- C08.4 `calc_prob_dists` as coded (`reshape((num_schedules, -1))`, then `truncate_and_normalize` row by row):
+it returns the circuit's per-schedule distributions (each passed through `truncate_and_normalize`, the identity on
+proper distributions by `truncNorm_id`) **if and only if all schedules have the same number of outcomes**.
+This is the exact guard under which the coded grouping is right; outside it the code raises or regroups silently
+(defect D8: `calcProbDists_mixed_counts_fails`, `calcProbDists_mixed_counts_regroups_fails`). -/
+theorem calcProbDists_eq_circuit_iff [Field K] [LinearOrder K] (eps : K) (cs : List (Coeff K))
+    (var : List K) (dists : List (List K)) (hk : 0 < dists.length)
+    (hp : predict cs var = .ok dists.flatten) :
+    calcProbDists eps dists.length cs var = .ok (dists.map (truncNorm eps)) ↔
+      ∃ c, ∀ d ∈ dists, d.length = c :=
+  calcProbDists_iff eps cs var dists hk hp
+
+/-- C08.4b `calc_prob_dist(qope, i)` under the guard: entry `i` of the circuit's distributions. -/
+theorem calcProbDist_eq_circuit [Field K] [LinearOrder K] (eps : K) (cs : List (Coeff K))
+    (var : List K) (dists : List (List K)) (c : Nat) (hk : 0 < dists.length)
+    (hd : ∀ d ∈ dists, d.length = c) (hp : predict cs var = .ok dists.flatten) (i : Nat) (hi : i < dists.length) :
+    calcProbDist eps dists.length cs var i = .ok (truncNorm eps dists[i]) := by
+  unfold calcProbDist
+  rw [(calcProbDists_eq_circuit_iff eps cs var dists hk hp).2 ⟨c, hd⟩]
+  simp [bind, Except.bind, pure, Except.pure, hi]
 
 /-- `truncate_and_normalize` is the identity on a distribution that sums to one and has no entry below `eps`. -/
 theorem truncNorm_id [Field K] [LinearOrder K] (eps : K) (row : List K)
@@ -287,7 +286,79 @@ theorem calcProbDists_mixed_counts_regroups_fails :
     decide +kernel
   · decide +kernel
 
+/-! ## tie to the source: the definitions regenerated from the four `_set_coeffs` / `calc_c_qpt` / `cqpt_to_cqmpt` /
+`_get_target_index` (`lean/QGen/C08.lean`, rewritten by `harness/c08.py:translate` on every run) are the model's -/
+
+/-- C08.src-a the QST row read from the source (`vec[1:]`, `vec[0] / np.sqrt(dim)` resp. `vec`, `0`) is the model's. -/
+theorem gen_qst_row [Field K] (flag : Bool) (r : K) (vec : List K) :
+    QGen.C08.qst_row flag r vec = qstRow flag r vec := gen_qst_row' flag r vec
+
+/-- C08.src-b the QPT row read from `calc_c_qpt` (`c[int(dim*dim):]`, `c[0]` resp. `c`, `0`) and the outer product with
+its argument order (`np.outer(povm_vec, state.vec).flatten()`) are the model's. -/
+theorem gen_qpt_row [Field K] (flag : Bool) (n : Nat) (c e rho : List K) :
+    QGen.C08.qpt_row flag n c = qptRow flag n c ∧ QGen.C08.qpt_c e rho = outerFlat e rho :=
+  ⟨gen_qpt_row' flag n c, rfl⟩
+
+/-- C08.src-c the POVMT row read from the source — hstack order, paddings `m_index·vec_size` and
+`((m−1)−m_index)·vec_size`, split point `vec_size·(m−1)`, `a_prime − tile(c_prime, m−1)`, offset `np.sqrt(dim)·c_prime[0]`
+— is the model's `povmtRow`. -/
+theorem gen_povmt_row [Field K] (flag : Bool) (r : K) (m : Nat) (rho : List K) (x : Nat) :
+    QGen.C08.povmt_row flag r m rho x = povmtRow flag r m rho x := gen_povmt_row' flag r m rho x
+
+/-- C08.src-d the dictionary keys of all four classes are `(schedule_index, element_index)` in this order, which is the
+key the model's `mkCoeffs` uses (and what makes `sorted(items)` the identity, `dict_sorted`). -/
+theorem gen_keys (per : List (List (List K × K))) :
+    QGen.C08.qst_key = Prod.mk ∧ QGen.C08.povmt_key = Prod.mk ∧ QGen.C08.qpt_key = Prod.mk ∧
+    QGen.C08.qmpt_key = Prod.mk ∧
+    mkCoeffs per = per.zipIdx.flatMap fun (rows, si) =>
+      rows.zipIdx.map fun (ab, x) => ⟨QGen.C08.qst_key si x, ab.1, ab.2⟩ :=
+  ⟨rfl, rfl, rfl, rfl, rfl⟩
+
+/-- C08.src-e positions inside a schedule, as the code reads them: QST `[unknown state, tester povm (last item)]`,
+POVMT `[tester state, unknown povm]`, QPT / QMPT `[tester state, unknown, tester povm]`.  The model's schedules are the
+pairs (tester state index, tester povm index) taken from exactly these positions. -/
+theorem gen_schedule_items :
+    QGen.C08.qst_target_item = 0 ∧ QGen.C08.qst_tester_item = -1 ∧
+    QGen.C08.povmt_state_item = 0 ∧ QGen.C08.povmt_target_item = 1 ∧
+    QGen.C08.qpt_state_item = 0 ∧ QGen.C08.qpt_target_item = 1 ∧ QGen.C08.qpt_povm_item = 2 ∧
+    QGen.C08.qmpt_target_item = 1 := by decide
+
+/-- C08.src-f the constants of `cqpt_to_cqmpt` (`d_qpt = c[:, :dim²]`, `e_qpt = c[:, dim²:]`, `m−1` resp. `m` diagonal
+blocks, `b_1 = d_qpt.T[0]`) and `num_outcomes = povm outcomes × m-process outcomes` as read from the source; the model's
+last block row written with them. -/
+theorem gen_qmpt_consts [Neg K] [Zero K] (d m p : Nat) (c : List K) :
+    QGen.C08.qmpt_d_cols d = d ^ 2 ∧ QGen.C08.qmpt_e_from d = d ^ 2 ∧ QGen.C08.qmpt_blocks_flag m = m - 1 ∧
+    QGen.C08.qmpt_blocks m = m ∧ QGen.C08.qmpt_b1_col = 0 ∧ QGen.C08.qmpt_num_outcomes p m = p * m ∧
+    qmptLastRow (QGen.C08.qmpt_d_cols d) m c =
+      (match c with
+       | c0 :: _ => some (tile (QGen.C08.qmpt_blocks_flag m)
+            (lneg (c.take (QGen.C08.qmpt_d_cols d)) ++
+              zeros (QGen.C08.qmpt_d_cols d * QGen.C08.qmpt_d_cols d - QGen.C08.qmpt_d_cols d)) ++
+            c.drop (QGen.C08.qmpt_e_from d), c0)
+       | [] => none) :=
+  ⟨rfl, rfl, rfl, rfl, rfl, rfl, rfl⟩
+
+/-- C08.src-g the headline identity on the generated QST row: what the source's expressions put into the dictionary
+predicts the Born value on the state built from `var`. -/
+theorem gen_qst_row_affine [Field K] (flag : Bool) (r : K) (vec var a : List K) (b : K)
+    (h : QGen.C08.qst_row flag r vec = some (a, b)) : ldot a var + b = ldot vec (stateOf flag r var) := by
+  rw [gen_qst_row] at h
+  exact qst_row_eq flag r vec var a b h
+
 /-! ## non-vacuity -/
+
+example : QGen.C08.qst_row true (2 : Rat) [1, 3, 5] = some ([3, 5], 1/2) := by decide +kernel
+example : QGen.C08.qpt_row true 2 ([1, 2, 3, 4] : List Rat) = some ([3, 4], 1) := by decide +kernel
+example : QGen.C08.povmt_row true (2 : Rat) 3 [1, 2] 2 = some ([-1, -2, -1, -2], 2) := by decide +kernel
+example : QGen.C08.povmt_row true (2 : Rat) 3 [1, 2] 0 = some ([1, 2, 0, 0], 0) := by decide +kernel
+
+/-- equal outcome counts `[2, 2]`: the guard of `calcProbDists_eq_circuit_iff` holds and `calc_prob_dist` returns entry 1 -/
+example : calcProbDist (1 / 10000000000000 : Rat) 2 (mkCoeffs [[([1/2], 0), ([1/2], 0)], [([1/4], 0), ([3/4], 0)]]) [1] 1
+    = .ok [1/4, 3/4] := by
+  unfold calcProbDist calcProbDists predict predictRaw
+  rw [dict_sorted]
+  decide +kernel
+
 
 /-- 1 qubit QST, flag = True, z-measurement with `r = 1` standing for `√d`: the hypothesis of `qst_affine` holds
 and the predictions are the circuit values -/
